@@ -27,7 +27,9 @@ CLAIMED = {
         text="Ownership ghost state (alive / freed-by, use-after-free and double-free flags, released-at-quiescence) is part of "
              "every concurrent specification and is model checked by TLC; on the code side every interleaving of the bounded "
              "scenarios is executed with instrumented payloads, functor captures and operator new/delete accounting and "
-             "validated against the specification.",
+             "validated against the specification; every sequential pipeline program enumerated from Pipeline.tla (eager, lazy, "
+             "unique and shared sources, all start / abandon kinds) is executed with allocation balance and functor-capture "
+             "accounting: nothing may remain once it is quiescent.",
         note=CONC_NOTE + "; specifications run: UniqueCore, SharedCore, Wait, When, Strand, ThreadPool in full; WaitGroup "
              "(consumed futures, two-owner timed waiter), Await (coroutine frame and its locals) in reduced form",
         design="7/C03", technique="TLC invariants on ownership ghost state + trace validation with accounting"),
